@@ -61,10 +61,11 @@ static Bytes seed_file(Rng &r, int fmt, std::string &fmtname)
         auto note = [&]() { delta(); b.push_back((uint8_t)(0x90 | r.below(3))); b.push_back((uint8_t)r.range(40, 80)); b.push_back((uint8_t)r.range(0, 127)); };
         std::function<void(int)> section = [&](int depth)
         {
-            int n = r.range(0, 5);
+            int n = r.range(0, 7);
             for(int i = 0; i < n; i++)
             {
-                int k = (int)r.below(10);
+                int k = (int)r.below(12);
+                if(k >= 10) k = 8;
                 if(k < 4) note();
                 else if(k < 6) tempo();
                 else if(k < 8 && depth < 3)
@@ -72,6 +73,10 @@ static Bytes seed_file(Rng &r, int fmt, std::string &fmtname)
                     marker(vfmt("loopStart=%d", (int)r.pick((const int[]){0, 0, 1, 2, 3, 100})));
                     section(depth + 1);
                     marker(r.chance(0.8) ? std::string("loopEnd=0") : std::string("loopEnd"));
+                }
+                else if(k == 8 && r.chance(0.7))
+                {   // the sequencer's internal event codes written into the file as meta events, with payloads of 0..2 bytes
+                    delta(); b.push_back(0xFF); b.push_back((uint8_t)(0xE1 + r.below(7))); int pl = (int)r.below(3); b.push_back((uint8_t)pl); for(int q = 0; q < pl; q++) b.push_back((uint8_t)r.below(4));
                 }
                 else if(k == 8) marker(r.chance(0.5) ? "loopStart" : "loopEnd");
                 else { delta(); b.push_back((uint8_t)(0xB0 | r.below(3))); b.push_back((uint8_t)r.pick((const int[]){7, 11, 64, 111, 116, 117})); b.push_back((uint8_t)r.below(128)); }
@@ -200,7 +205,7 @@ static Bytes hostile_smf(Rng &r, std::string &desc)
             {
             case 0: b.push_back((uint8_t)(0x90 | r.below(16))); b.push_back((uint8_t)r.below(256)); b.push_back((uint8_t)r.below(256)); break;
             case 1: b.push_back((uint8_t)r.below(128)); b.push_back((uint8_t)r.below(128)); break;      // running status (maybe none set)
-            case 2: { b.push_back(0xFF); b.push_back((uint8_t)r.below(256));
+            case 2: { b.push_back(0xFF); b.push_back((uint8_t)(r.chance(0.3) ? 0xE1 + r.below(7) : r.below(256)));   // 0xE1..0xE7: the sequencer's own internal event codes
                 static const uint64_t L[] = {0, 1, 3, 127, 128, 0x3FFF, 0x1FFFFF, 0xFFFFFFF, 0xFFFFFFFFull, 0xFFFFFFFFFFFFFFF8ull, 0x7FFFFFFFFFFFFFFFull};
                 uint64_t len = r.pick(L); put_vlq(b, len); int have = r.range(0, 6); for(int j = 0; j < have; j++) b.push_back(r.byte()); break; }
             case 3: { b.push_back(r.chance(0.5) ? 0xF0 : 0xF7);
